@@ -165,7 +165,9 @@ static Verdict model(const Dom &d, const std::vector<Item> &items, bool lenient 
                 // RFC 8446 4.1.4: one HelloRetryRequest that changes the ClientHello is legal; a second one is fatal.  The puppet only asks for a
                 // group the victim offered no share for when the domain point says hrr.
                 // 4.1.4 / 4.2.8: selected_group must be one the client offered in supported_groups and sent no share for
-                if (st == ST_HELLO && d.hrr && it.st.flip_bit < 0 && it.hrr_sel == 0) { next = ST_HELLO2; hrr_suite = it.st.cipher_suite ? it.st.cipher_suite : 0x1301; }
+                // (selected_group secp384r1 is such a change too: every victim configuration lists it in supported_groups and never sends a share for
+                // it; the scripted server then answers the second ClientHello in that group, so the rest of the trace is judged as usual)
+                if (st == ST_HELLO && d.hrr && it.st.flip_bit < 0 && (it.hrr_sel == 0 || it.hrr_sel == 2)) { next = ST_HELLO2; hrr_suite = it.st.cipher_suite ? it.st.cipher_suite : 0x1301; }
                 else { bad(i, st == ST_HELLO2 ? "second-hello-retry-request" : it.hrr_sel == 3 ? "hello-retry-request-group-not-offered" : "hello-retry-request-without-change"); }
                 break;
             }
